@@ -13,6 +13,8 @@ from pymemcache import serde as S
 
 PROPERTY = "C07"
 LEVEL = "fault_enumeration"
+# parts repeated in a child interpreter started with -O and with warnings turned into errors (vlib/runner.py, MODES)
+MODE_PARTS = {"OW": ['failure-sweep']}
 RULE = ("case = (client stack: Client / PooledClient / HashClient with 1-3 servers, pooled or not; all with ignore_exc=True), "
         "a read call (get, gets, gat, gats, get_many, gets_many) with default / cas_default / expire passed by keyword "
         "- only the parameters that class's method accepts according to inspect.signature - and get's default also "
